@@ -269,6 +269,30 @@ def cavManifold (g : Grid α) (c : Cav) : Bool :=
      | none => true)
   segOk && faceOk
 
+/-! ### the conformity ledger of a tet + tri cavity (executable, evaluated by the run-level driver on every
+       `cavity_replace begin` record) -/
+
+/-- the cone faces `(s0, s1, seg_node)` of the live segs that are not attached to the seg node: the faces of the
+    boundary tris `ref_cavity_replace` creates -/
+def segCone (c : Cav) : List Face :=
+  c.validSegs.filterMap fun s =>
+    if c.segNode == s.n0 || c.segNode == s.n1 then none else some ⟨s.n0, s.n1, c.segNode⟩
+
+/-- `live faces + removed tris` against `cone of the live segs + faces of the removed tets`: every unordered face has
+    signed multiplicity zero.  This is the chain identity `F − cone(∂S) = ∂T − S` under which the replacement keeps
+    the signed boundary of the mesh INCLUDING its boundary tris (`replace_conforming_boundary`). -/
+def ledgerOk (c : Cav) (ts : List Tet) (ss : List Tri) : Bool :=
+  let pos := c.validFaces ++ ss.map fun t => (⟨t.n0, t.n1, t.n2⟩ : Face)
+  let neg := segCone c ++ ts.flatMap tetFaces
+  (pos ++ neg).all fun f => signedCount pos neg (sort3s f.n0 f.n1 f.n2).1 == 0
+
+/-- the listed cells, looked up in the grid (dead cells are dropped: `ref_cavity_replace` fails on them) -/
+def listedTets (g : Grid α) (c : Cav) : List Tet := c.tetList.filterMap fun cell => g.tets.get? cell
+def listedTris (g : Grid α) (c : Cav) : List Tri := c.triList.filterMap fun cell => g.tris.get? cell
+
+/-- `ledgerOk` on the cells the cavity lists -/
+def ledgerOkAt (g : Grid α) (c : Cav) : Bool := ledgerOk c (listedTets g c) (listedTris g c)
+
 /-! ### the enlarge loops -/
 
 /-- result of a modelled C function that contains a `while (keep_growing)` loop -/
